@@ -187,6 +187,106 @@ def startInjected (r : Rt) (k : Nat) (acts : List Action) (fuel : Nat := 1000000
           let s := VM.sched 150 fuel [o.1] 0 o.2.1 .ok
           ({ ctx := s.rt.ctxs.head?, m := s.rt.m, state := s.state }, resOf s.res, results)
 
+/-! ## Control actions issued at an instruction boundary of a stepping action
+
+The same controller, but the executing thread is inside an assembly step, a line step or a leave scope (one of a
+history of such actions). `inj = some k`: the controller gets its turn right before the `(k+1)`-th instruction the
+history executes from here on; `req`: its actions contain a stop or an abort (accepted: the VM runs and the run flag
+is held). The instruction that was about to execute still executes; the request is seen afterwards. -/
+
+/-- one instruction; the countdown and whether the controller had its turn -/
+def doOneI (req : Bool) (inj : Option Nat) (c : Ctx) (m : M) : (Ctx × M × StepRes) × Option Nat × Bool :=
+  match inj with
+  | none => (doOne c m, none, false)
+  | some 0 =>
+    -- a context that is over executes nothing: the controller does not get its turn here
+    if (doOne c m).2.2 == .empty then (doOne c m, some 0, false)
+    else (((doOne c m).1, { (doOne c m).2.1 with exitReq := (doOne c m).2.1.exitReq || req }, (doOne c m).2.2), none, true)
+  | some (k + 1) =>
+    if (doOne c m).2.2 == .empty then (doOne c m, some (k + 1), false) else (doOne c m, some k, false)
+
+/-- `lineLoop` with the controller -/
+def lineLoopI (lineOf : Ctx → Option Nat) (req : Bool) (ln : Option Nat) :
+    Nat → Option Nat → Bool → Ctx → M → (Ctx × M × StepRes) × Option Nat × Bool
+  | 0, inj, fired, c, m => ((c, m, .hang), inj, fired)
+  | fuel + 1, inj, fired, c, m =>
+    let o := doOneI req inj c m
+    if o.1.2.2 ≠ .ok then (o.1, o.2.1, fired || o.2.2)
+    else if o.1.2.1.exitReq then (o.1, o.2.1, fired || o.2.2)
+    else if sameLine ln (lineOf o.1.1) then
+      lineLoopI lineOf req (if ln.isNone then lineOf o.1.1 else ln) fuel o.2.1 (fired || o.2.2) o.1.1 o.1.2.1
+    else (o.1, o.2.1, fired || o.2.2)
+
+/-- `leaveLoop` with the controller -/
+def leaveLoopI (req : Bool) (depth : Nat) :
+    Nat → Option Nat → Bool → Ctx → M → (Ctx × M × StepRes) × Option Nat × Bool
+  | 0, inj, fired, c, m => ((c, m, .hang), inj, fired)
+  | fuel + 1, inj, fired, c, m =>
+    let o := doOneI req inj c m
+    if o.1.2.2 ≠ .ok then (o.1, o.2.1, fired || o.2.2)
+    else if o.1.2.1.exitReq then (o.1, o.2.1, fired || o.2.2)
+    else if o.1.1.frames.length ≤ depth then (o.1, o.2.1, fired || o.2.2)
+    else leaveLoopI req depth fuel o.2.1 (fired || o.2.2) o.1.1 o.1.2.1
+
+/-- `runK` that also says how much of the countdown is left when the run ends early (a context that is over executes
+    nothing; a failing instruction was executed) -/
+def runKn : Nat → Ctx → M → (Ctx × M × StepRes) × Nat
+  | 0, c, m => ((c, m, .ok), 0)
+  | k + 1, c, m =>
+    if (doOne c m).2.2 = .ok then runKn k (doOne c m).1 (doOne c m).2.1
+    else if (doOne c m).2.2 = .empty then (doOne c m, k + 1)
+    else (doOne c m, k)
+
+/-- one action of a history with the controller waiting for its instruction boundary: the runtime, the result, the
+    countdown that is left and whether the controller had its turn during this action. A `start` the controller
+    interrupts is that of `startInjected`; `none`: outside the model (a start with spawned scripts waiting). -/
+def execI (lineOf : Ctx → Option Nat) (req : Bool) (r : Rt) (inj : Option Nat) (fuel : Nat := 100000) :
+    Action → Option ((Rt × Res) × Option Nat × Bool)
+  | .start =>
+    match inj with
+    | none => some (startAct r, none, false)
+    | some k =>
+      match r.ctx with
+      | none => some (finish r none (begin r.m) .empty, inj, false)
+      | some c =>
+        -- scripts spawned while the VM was stepped would be scheduled beside the stepped one: not covered here
+        if !r.m.spawned.isEmpty then none
+        else
+          let a := runKn k c (begin r.m)
+          if a.1.2.2 ≠ .ok then
+            -- the run ended or failed before the boundary was reached (as in `startInjected`)
+            some (((finish r (if a.1.2.2 == .empty then none else some a.1.1) a.1.2.1 a.1.2.2).1, resOf a.1.2.2), some a.2, false)
+          else
+            let o := doOne a.1.1 a.1.2.1
+            if o.2.2 == .empty then some (((finish r none o.2.1 .empty).1, .empty), some 0, false)
+            else if o.2.2 ≠ .ok then
+              some (((finish r (some o.1) { o.2.1 with exitReq := o.2.1.exitReq || req } o.2.2).1, resOf o.2.2), none, true)
+            else if req then
+              some (({ ctx := none, m := { o.2.1 with exitReq := true, spawned := [] }, state := .empty }, .ok), none, true)
+            else
+              let s := VM.sched 150 1000000 [o.1] 0 o.2.1 .ok
+              some (({ ctx := s.rt.ctxs.head?, m := s.rt.m, state := s.state }, resOf s.res), none, true)
+  | .stop => some ((r, .actionError), inj, false)
+  | .abort => some (abortAct r, inj, false)
+  | .assemblyStep =>
+    match r.ctx with
+    | none => some (finish r none (begin r.m) .empty, inj, false)
+    | some c =>
+      let o := doOneI req inj c (begin r.m)
+      some (finish r (some o.1.1) o.1.2.1 o.1.2.2, o.2.1, o.2.2)
+  | .lineStep =>
+    match r.ctx with
+    | none => some (finish r none (begin r.m) .empty, inj, false)
+    | some c =>
+      let o := lineLoopI lineOf req (lineOf c) fuel inj false c (begin r.m)
+      some (finish r (some o.1.1) o.1.2.1 o.1.2.2, o.2.1, o.2.2)
+  | .leaveScope =>
+    match r.ctx with
+    | none => some (finish r none (begin r.m) .empty, inj, false)
+    | some c =>
+      let o := leaveLoopI req (c.frames.length - 1) fuel inj false c (begin r.m)
+      some (finish r (some o.1.1) o.1.2.1 o.1.2.2, o.2.1, o.2.2)
+
 /-! ## The concurrent layer -/
 
 namespace Conc
